@@ -42,7 +42,50 @@ func (c *Chain) dumpModule(name string) map[string][]byte {
 	for _, kv := range c.RawStore(name, "") {
 		out[string(kv[0])] = kv[1]
 	}
+	// the module's parameters live in the params store under "<subspace>/<key>": record kind "Params"
+	for _, kv := range c.RawStore("params", name+"/") {
+		out["Params/"+string(kv[0])] = kv[1]
+	}
 	return out
+}
+
+// govTouchParams moves every parameter of the custom modules away from its compiled-in default, key by
+// key, the way passed parameter-change proposals do (changes a validator refuses are skipped): a
+// genesis that carried defaults instead of the live values would otherwise look complete.
+func (c *Chain) govTouchParams() {
+	for _, m := range customModules {
+		ss, ok := c.A.VerifSubspace(m)
+		if !ok {
+			continue
+		}
+		for _, kv := range c.RawStore("params", m+"/") {
+			key, val := string(kv[0]), string(kv[1])
+			var nv string
+			var n int64
+			var str string
+			if _, err := fmt.Sscanf(val, "\"%d\"", &n); err == nil && json.Unmarshal(kv[1], &str) == nil && fmt.Sprint(n) == str {
+				nv = fmt.Sprintf("\"%d\"", n+1)
+			} else if json.Unmarshal(kv[1], &str) == nil {
+				switch {
+				case strings.Contains(key, "Deposit") || strings.Contains(key, "Stipend"):
+					nv = fmt.Sprintf("%q", c.Users[len(c.Users)-1].String())
+				case strings.Contains(key, "Feed"):
+					nv = fmt.Sprintf("%q", str+"2")
+				default:
+					continue
+				}
+			} else {
+				continue
+			}
+			cctx, write := c.Ctx().CacheContext()
+			func() {
+				defer func() { recover() }()
+				if err := ss.Update(cctx, kv[0], []byte(nv)); err == nil {
+					write()
+				}
+			}()
+		}
+	}
 }
 
 func (c *Chain) exportCustom() (map[string]json.RawMessage, map[string]string) {
@@ -70,6 +113,9 @@ func (c *Chain) exportCustom() (map[string]json.RawMessage, map[string]string) {
 func genesisRoundTrip(c *Chain, hist int, profile string, out *Emitter) {
 	if c.InBlk {
 		c.End()
+	}
+	if hist%3 != 0 {
+		c.govTouchParams()
 	}
 	exported, errs := c.exportCustom()
 	before := map[string]map[string][]byte{}
